@@ -366,6 +366,12 @@ static const uint64_t VF64[] = {
 
 /* value of element i of source role r for element size sz.  Layout: all
  * tuples of the alphabet of that size: role r cycles with period |B|^(r+1). */
+static int v_finite_only;	/* float alphabets without infinities and NaNs (cross-path comparisons are only defined for finite inputs) */
+static int v_float_is_finite (int sz, uint64_t bits)
+{
+  return sz == 4 ? ((bits & 0x7f800000u) != 0x7f800000u) : ((bits & 0x7ff0000000000000ULL) != 0x7ff0000000000000ULL);
+}
+
 static uint64_t v_value (int sz, int isfloat, int role, uint64_t i)
 {
   uint64_t nb, k, d = 1;
@@ -383,8 +389,12 @@ static uint64_t v_value (int sz, int isfloat, int role, uint64_t i)
   switch (sz) {
     case 1: return k;
     case 2: return VB16[k];
-    case 4: return isfloat ? VF32[k] : VB32[k];
-    default: return isfloat ? VF64[k] : VB64[k];
+    case 4:
+      if (isfloat && v_finite_only) { while (!v_float_is_finite (4, VF32[k])) k = (k + 1) % nb; }
+      return isfloat ? VF32[k] : VB32[k];
+    default:
+      if (isfloat && v_finite_only) { while (!v_float_is_finite (8, VF64[k])) k = (k + 1) % nb; }
+      return isfloat ? VF64[k] : VB64[k];
   }
 }
 
